@@ -131,7 +131,7 @@ def main(tier):
             sig = dict(level="textures", clause=clause, fabric=m["scen"]["fab"], regime=m["scen"]["regime"], q=m["scen"]["q"], s=m["scen"]["s"])
             chk.violation(sig, f"{clause} beyond twice the accumulated budget at step {m['step']} (N={rj['n']}): {m['scen']}", dict(meta=m, event=events[rj["id"]]))
     chk.sample(dict(kind="scenario", scen=scens[0]))
-    chk.sample(dict(kind="event", event=next(e for e in events if e["ev"] == "Step")))
+    chk.sample(dict(kind="event", event=next((e for e in events if e["ev"] == "Step"), dict(note="no step was recorded: every paired run raised"))))
     # negative control: a frame-dependent deviation of 0.1 must be rejected; one inside the budget accepted
     rj, _ = pairs.judge([dict(id=0, ev="Start"), dict(id=1, ev="Step", rel="frame-and-symmetry", dstrain_e6=200000, dA_e9=100000000, df_e9=10, dG_e9=10),
                          dict(id=2, ev="Step", rel="frame-and-symmetry", dstrain_e6=200000, dA_e9=10000000, df_e9=10, dG_e9=10)])
